@@ -151,13 +151,14 @@ Proof.
   { destruct (w_mid m =? MSG_ID_OOB); [|destruct (w_mid m =? MSG_ID_CLOSE)]; inversion E; subst; clear E; cbn [srcs with_srcs];
       apply SIMPLE; reflexivity. }
   set (sm := {| st_pay := w_pay m; st_mid := w_mid m; st_src := i; st_topic := topic_of_wire (w_wtopic m) |}) in *.
-  destruct (process_msg Repaired (with_conn true s0) (w_mid m) sm (topic_of_wire (w_wtopic m)) (w_topics m) (f_min f1))
+  set (tp := heard_topic Repaired (sc_mode (cfg s0)) (topic_of_wire (w_wtopic m))) in *.
+  destruct (process_msg Repaired (with_conn true s0) (w_mid m) sm tp (w_topics m) (f_min f1))
     as [[nw s2]|] eqn:Ep.
   2:{ inversion E; subst; clear E; cbn [srcs with_srcs]. apply SIMPLE; reflexivity. }
   destruct (process_msg_frame _ _ _ _ _ _ _ _ _ (fun _ => True) Ep) as (Pc & _). cbn in Pc.
   rewrite Hb in E. cbn [negb andb] in E. rewrite andb_false_r in E.
   set (l1 := set_src (srcs st) i (fun _ => s2)) in *.
-  set (lock := match topic_of_wire (w_wtopic m) with [] => false | _ => true end) in *.
+  set (lock := match tp with [] => false | _ => true end) in *.
   set (l3 := if lock then upd_others l1 i (with_reg false) else l1) in *.
   apply fin_msg_shape in E as (FS & FI & FB). cbn [srcs with_srcs] in FS, FI.
   assert (N3 : nth_error l3 i = Some s2).
@@ -173,7 +174,7 @@ Proof.
   - exists x. split; [exact Hx|]. split; [congruence|].
     intro H. apply Hh in H. destruct lock eqn:El.
     + right. intros j Hj. rewrite (FS j Hj), (O3 j Hj). reflexivity.
-    + left. unfold lock in El. destruct (topic_of_wire (w_wtopic m)) eqn:Et; [|discriminate].
+    + left. unfold lock in El. destruct tp eqn:Et; [|discriminate].
       apply (process_msg_heartbeat_holds _ _ _ _ _ _ _ _ Ep Hwf) in H. exact H.
 Qed.
 
